@@ -10,6 +10,20 @@ the call.  Sanity check by mutation of this tie (scratch copies):
 stored-write set, theorem `c18_facet_counts_writes_nothing`): the model answers with the dictionary it computes from
 the reverse entries it reads - only if its write log and allocator did not move - and the real `counts` must give the same.
   T7  `FacetIndex.counts` omits only the exact `omit_facets` entries, not their ancestors          caught
+Reads that overlap in time, and query objects the caller still holds (builder wt_strong7):
+  `read isort`: 2-3 FieldIndex.sort results (lazy generators; all sort types forced and auto-selected, the same
+  request again 36%) in flight together - read alternately, one id first and the rest after another sort, in
+  reverse creation order - each compared with the same sort read on its own (a read's answer must not depend on
+  another read being half done).  `read tree0/tree1`: 35% of the trees are negation shapes
+  `Not(And(Not(Or(..)), x, ..))` / `Not(Or(Not(And(..)), x, ..))` (inner negated operator first 82%, doubly negated
+  operands) - `Not.negate()` hands back the caller's OWN child object; EVERY query object the caller constructed
+  (also operators a same-type parent flattened away) is snapshot before/after, also when the execution raises, and
+  up to 12 And/Or/Not sub-queries are executed on their own before and after the enclosing query.
+  seeded C18_G  scan_forward keeps one volatile working set on the index                 MISSED before, now caught
+  seeded C18_H  BoolOp.__init__ adopts the .queries list of a leftmost same-type operand MISSED before, now caught
+  M18i  Not._optimize optimises the operands of `self.query.negate()` in place when it is an And/Or (only bites
+        when negate() returned the caller's own operator: double negation)                               caught
+  M07m  FieldIndex._timsort keeps its missing-docids list on the index                    caught (isort; also C07, C11)
 """
 import importlib
 
@@ -35,11 +49,15 @@ RULE = ("sessions on a catalog with field, keyword, facet, Okapi-text and cosine
         "applyX and via query objects executed with and without optimisation, And/Or/Not trees, text apply / "
         "check_query / parse_query with unknown words, globs and phrases, FieldIndex.sort with every sort_type x "
         "reverse x limit x raise_unsortable on caller-owned sets/lists and on containers the index itself handed "
-        "out (not_indexed(), docids(), applyEq/applyNotEq results), text relevance sort, counts, ResultSet "
+        "out (not_indexed(), docids(), applyEq/applyNotEq results), 2-3 field sorts in flight together read "
+        "alternately and each compared with the same sort alone (5% of the reads; quick seed 0: 511 reads, 278 with "
+        "two possible forward scans), text relevance sort, counts, ResultSet "
         "first/one/all/len/intersect/sort, CatalogQuery.search/query, all enumeration and statistics methods. "
         "Every read is executed twice; before and after, the complete observable state of every index, both "
         "lexicons' vocabularies, the caller's collection and a structural+identity snapshot of the query object "
-        "are compared. non-trivial = at least 8 distinct reads on a non-empty catalog")
+        "are compared; trees: 35% negation shapes Not(And/Or(Not(Or/And(..)), ..)) (quick seed 0: 332 of 960 trees, "
+        "inner negated operator as first operand 271), every constructed query object snapshot, And/Or/Not "
+        "sub-queries executed alone before and after. non-trivial = at least 8 distinct reads on a non-empty catalog")
 LEVEL_TEXT = ("Lean 4: (1) reads are functions State -> Args -> Result in every pure model (purity by type); (2) the "
               "provenance table - every in-place write on a read path (TextIndex.apply rescaling, scan_forward "
               "removal, N-best merging) targets a freshly allocated container, for Okapi unconditionally and for "
@@ -123,6 +141,21 @@ def gen_read(rng, ids):
     if r < 0.38:
         return ["read", rng.choice(["tapply", "tcheck", "tparse", "tnot", "uapply", "unot", "texec"]),
                 rng.randrange(len(TEXT_QUERIES))]
+    if 0.55 <= r < 0.6:
+        # 2-3 sorts of the field index IN FLIGHT at the same time (lazy generators consumed alternately, one id
+        # first and the rest after another sort, in reverse creation order), each compared with the same sort
+        # read on its own
+        n = rng.choice([2, 2, 3])
+        specs = []
+        for k in range(n):
+            src = rng.choice(["own-set", "own-list", "own-treeset", "docids", "indexed", "applynoteq", "all", "all"])
+            st = rng.choice([0, 0, 2, 3, 3, rng.randrange(len(SORT_TYPES))])
+            spec = [src, st, 0 if st == 3 else rng.randrange(2), rng.choice([0, 0, 0, 1, 2, 50]),
+                    rng.randrange(2), rng.randrange(8), rng.randrange(1, 1 << (len(ids) + 2))]
+            if k and rng.random() < 0.3:
+                spec = list(specs[0])        # the same request again
+            specs.append(spec)
+        return ["read", "isort", rng.randrange(1 << 30), n] + [x for sp in specs for x in sp]
     if r < 0.6:
         src = rng.choice(["own-set", "own-list", "own-treeset", "not_indexed", "docids", "applyeq", "applynoteq",
                           "indexed"])
@@ -140,13 +173,61 @@ def gen_read(rng, ids):
         # compared with the object-level model's answer
         return ["read", "prov", rng.choice(PROV_KINDS), rng.randrange(40)]
     if r < 0.9:
-        # boolean tree over the catalog's five indexes (kinds as in lib.qtree)
-        t = qtree.gen_tree(rng, ["field", "keyword", "facet", "text", "text"], rng.randrange(1, 4))
+        # boolean tree over the catalog's five indexes (kinds as in lib.qtree); 40%: negation shapes - an inner
+        # negated And/Or as (mostly) FIRST operand of a negated Or/And, doubly negated operands
+        kinds = ["field", "keyword", "facet", "text", "text"]
+        if rng.random() < 0.4:
+            t = gen_negshape(rng, kinds)
+        else:
+            t = qtree.gen_tree(rng, kinds, rng.randrange(1, 4))
         return ["read", rng.choice(["tree0", "tree1"])] + qtree.flat_tokens(t)
     if r < 0.95:
         return ["read", "rs", rng.choice(["first", "one", "all", "len", "intersect", "sortsort"]), rng.randrange(8)]
     return ["read", "legacy", rng.randrange(8), rng.randrange(32), rng.randrange(2), rng.choice([0, 2]),
             rng.randrange(5)]
+
+
+def gen_negshape(rng, kinds):
+    """`Not(And(Not(Or(..)), x, ..))` / `Not(Or(Not(And(..)), x, ..))` and relatives: executing them negates the
+    outer operator, and `Not.negate()` hands back the caller's own inner Or/And object, which becomes an operand
+    (mostly the first one) of a freshly constructed operator of the SAME type"""
+    sub = lambda d: qtree.gen_tree(rng, kinds, d)  # noqa: E731
+    inner_op = rng.choice(["and", "or"])
+    inner = [inner_op, [sub(rng.choice([0, 0, 1])) for _ in range(rng.choice([2, 2, 3]))]]
+    first = ["not", inner]
+    if rng.random() < 0.15:
+        first = ["not", ["not", first]]
+    outer_op = ("or" if inner_op == "and" else "and") if rng.random() < 0.8 else inner_op
+    rest = [sub(rng.choice([0, 0, 1])) for _ in range(rng.choice([1, 1, 2]))]
+    if rng.random() < 0.25:
+        rest[0] = ["not", [inner_op, [sub(0), sub(0)]]]       # a second negated operator of that type
+    kids = [first] + rest
+    if rng.random() < 0.2:
+        kids.insert(0, kids.pop(1))                          # the negated operator in second place
+    t = ["not", [outer_op, kids]]
+    q = rng.random()
+    if q < 0.15:
+        t = ["not", ["not", t]]
+    elif q < 0.3:
+        t = [rng.choice(["and", "or"]), [t, sub(0)]]
+    elif q < 0.4:
+        t = [rng.choice(["and", "or"]), [sub(0), t]]
+    return t
+
+
+def is_negshape(t):
+    """a Not over an And/Or one of whose operands is a Not over an And/Or (anywhere in the tree)"""
+    if t[0] == "not":
+        k = t[1]
+        if k[0] in ("and", "or") and any(x[0] == "not" and x[1][0] in ("and", "or") for x in k[1]):
+            return "first" if (k[1][0][0] == "not" and k[1][0][1][0] in ("and", "or")) else "later"
+        return is_negshape(k)
+    if t[0] in ("and", "or"):
+        for k in t[1]:
+            r = is_negshape(k)
+            if r:
+                return r
+    return None
 
 
 PROV_KINDS = ["fdocids", "fni", "feq", "frange", "kdocids", "kni", "keq", "kany", "cdocids", "cni", "ccounts",
@@ -172,6 +253,7 @@ class Sess(object):
         self.cat = c09.make_catalog(cutoff)
         self.ids = list(range(nids)) + [97, 98]
         self.f, self.k, self.c, self.t, self.u = (self.cat["i%d" % i] for i in range(5))
+        self.problems = []      # what a read noticed by itself (beyond state / inputs / repeatability)
 
     def state(self):
         lex = []
@@ -331,9 +413,107 @@ class Sess(object):
             return " ; ".join(outs), inputs
         if kind in ("tree0", "tree1"):
             im = self.qimpl()
-            q = im.build(qtree.parse_tokens(list(c[2:])))
-            inputs.append(snap("query", lambda q=q: repr(im.snapshot(q))))
-            return canon(q.execute(optimize=(kind == "tree1")).ids), inputs
+            nodes = []          # EVERY query object the caller constructed (also those an operator flattened away)
+
+            def build(t):
+                if t[0] == "not":
+                    q = Q.Not(build(t[1]))
+                elif t[0] in ("and", "or"):
+                    q = (Q.And if t[0] == "and" else Q.Or)(*[build(k) for k in t[1]])
+                else:
+                    q = im.build(t)
+                nodes.append(q)
+                return q
+            q = build(qtree.parse_tokens(list(c[2:])))
+
+            def alone(x):
+                try:
+                    return canon(x.execute(optimize=False).ids)
+                except Exception as e:
+                    return exc_name(e)
+            subs = [x for x in nodes[:-1] if isinstance(x, (Q.BoolOp, Q.Not))][:12]
+            for j, x in enumerate(nodes):
+                inputs.append(snap("query" if x is q else "sub-query", lambda x=x: repr(im.snapshot(x))))
+            before = [alone(x) for x in subs]
+            for n, fn, s0 in inputs:
+                if fn() != s0:
+                    self.problems.append("input-changed:%s(by-executing-a-sub-query)" % n)
+            try:
+                res = canon(q.execute(optimize=(kind == "tree1")).ids)
+            except Exception as e:
+                res = exc_name(e)
+            # the sub-queries the caller still holds answer as before
+            if [alone(x) for x in subs] != before:
+                self.problems.append("sub-query-answers-differently-afterwards")
+            return res, inputs
+        if kind == "isort":
+            import random
+            from hypatia.exc import Unsortable
+            n = c[3]
+            specs = [c[4 + 7 * k: 11 + 7 * k] for k in range(n)]
+
+            def coll_of(sp):
+                src, st, rev, lim, raise_u, const, mask = sp
+                own = [d for j, d in enumerate(self.ids) if (mask >> j) & 1]
+                return {"own-set": lambda: set(own), "own-list": lambda: list(own),
+                        "own-treeset": lambda: self.f.family.IF.TreeSet(own), "docids": self.f.docids,
+                        "indexed": self.f.indexed, "applynoteq": lambda: self.f.applyNotEq(const),
+                        "all": lambda: list(self.ids)}[src]()
+
+            def start(sp, coll):
+                src, st, rev, lim, raise_u, const, mask = sp
+                return self.f.sort(coll, reverse=bool(rev), limit=lim or None, sort_type=SORT_TYPES[st],
+                                   raise_unsortable=bool(raise_u))
+
+            def pull(h, k):
+                while h["done"] is None and (k is None or k > 0):
+                    try:
+                        h["out"].append(next(h["it"]))
+                    except StopIteration:
+                        h["done"] = "ok"
+                    except Unsortable as e:
+                        h["done"] = "unsortable=" + idset(list(e.docids))
+                    except Exception as e:
+                        h["done"] = exc_name(e)
+                    if k is not None:
+                        k -= 1
+
+            def opened(sp, coll):
+                try:
+                    return {"it": iter(start(sp, coll)), "out": [], "done": None}
+                except Exception as e:
+                    return {"it": iter(()), "out": [], "done": exc_name(e)}
+
+            def show(h):
+                return "[%s] %s" % (" ".join(map(str, h["out"])), h["done"])
+            colls = [coll_of(sp) for sp in specs]
+            for k, x in enumerate(colls):
+                inputs.append(snap("collection", lambda x=x: repr(list(x))))
+            want = []
+            for sp, coll in zip(specs, colls):       # each sort read on its own
+                h = opened(sp, coll)
+                pull(h, None)
+                want.append(show(h))
+            rng = random.Random(c[2])
+            hs = []
+            for sp, coll in zip(specs, colls):       # the same sorts in flight together
+                hs.append(opened(sp, coll))
+                for _ in range(rng.choice([0, 1, 1, 2])):
+                    pull(rng.choice(hs), rng.choice([1, 1, 2, 3, None]))
+            for _ in range(rng.choice([0, 2, 4, 8])):
+                pull(rng.choice(hs), rng.choice([1, 1, 2, 3]))
+            order = list(hs)
+            q = rng.random()
+            if q < 0.4:
+                order.reverse()
+            elif q < 0.6:
+                rng.shuffle(order)
+            for h in order:
+                pull(h, None)
+            got = [show(h) for h in hs]
+            if got != want:
+                self.problems.append("sort-in-flight-with-another-differs-from-the-same-sort-alone")
+            return " | ".join(want), inputs
         if kind == "rs":
             what, const = c[2], c[3]
             gen = (d for d in sorted(self.f.applyGe(const)))
@@ -433,6 +613,8 @@ def impl_run(hyp, case):
             except Exception as e:
                 res, inputs = exc_name(e), []
             results.append(res)
+            problems += s.problems
+            s.problems = []
             after = s.state()
             if after != before:
                 problems.append("index-state-changed")
@@ -467,6 +649,18 @@ def features(case, outs):
                                             else str(o)))
             elif c[1] == "prov":
                 f.append("prov:%s %s" % (c[2], o))
+            if c[1] in ("tree0", "tree1"):
+                ns = is_negshape(qtree.parse_tokens(list(c[2:])))
+                if ns:
+                    f.append("tree:Not(BoolOp(Not(BoolOp)..)) inner-negated-operator-%s" % ns)
+            if c[1] == "isort":
+                specs = [c[4 + 7 * k: 11 + 7 * k] for k in range(c[3])]
+                nfw = sum(1 for sp in specs if not sp[2] and sp[1] in (0, 2, 3))
+                f.append("isort:%d-in-flight/%s" % (c[3], "2+maybe-fwscan" if nfw >= 2 else "other"))
+                if any(specs[k] == specs[0] for k in range(1, len(specs))):
+                    f.append("isort:same-request-again")
+            if False:
+                pass
             elif o != "unchanged":
                 f.append(o)
     return f
